@@ -28,6 +28,11 @@ Proof. exact name_verbatim. Qed.
    single quotes: for every message text and every value assignment *)
 Theorem C13_message : forall m value_of, rendered m value_of = Some (display m value_of).
 Proof. exact message_rendered. Qed.
+(* the values of in / containsAll / containsSome lists: every list of texts, whatever they contain, is read back by the
+   engine element by element as exactly those texts, and the code after the last element is untouched *)
+Theorem C13_list_values_verbatim : forall l fuel rest, l <> [] -> max_length l < fuel ->
+  scan_elements fuel (List.length l) (join_quoted l ++ rest) = Some (l, rest).
+Proof. exact list_values_verbatim. Qed.
 (* the package name derived from the profile name is always an identifier *)
 Theorem C13_package_name : forall s, all_ident (package_name s) = true.
 Proof. exact package_name_is_identifier. Qed.
@@ -50,5 +55,6 @@ Print Assumptions C13_tie_paste_sites.
 Print Assumptions C13_no_injection.
 Print Assumptions C13_names_verbatim.
 Print Assumptions C13_message.
+Print Assumptions C13_list_values_verbatim.
 Print Assumptions C13_package_name.
 Print Assumptions C13_refuted_before_fix.
